@@ -145,6 +145,33 @@ def rules(report, index):
                  'decode_vlq(%r)' % want,
                  'decode_vlq(%r) gives %r; the digits denote %d' % (
                      want, back, i), where='vlq.py:vlq_decoder')
+    # the list forms may take other paths than the scalar form (tables
+    # of precomputed small encodings, generators): every value again,
+    # alone and after another value
+    bad_list = []
+    for i in sorted(values, key=lambda v: (abs(v), v)):
+        want = reference_vlq(i)
+        for seq in ([i], [7, i]):
+            wants = ''.join(reference_vlq(x) for x in seq)
+            got = call('encode_vlqs', list(seq))
+            back = call('decode_vlqs', wants)
+            if got != wants or back != tuple(seq):
+                bad_list.append((seq, got, wants, back))
+        if abs(i) <= 300:
+            got = call('encode_mappings', [[(i,), (0, i)]])
+            wantm = '%s,%s%s' % (want, reference_vlq(0), want)
+            if got != wantm:
+                bad_list.append(([[(i,), (0, i)]], got, wantm, None))
+    r2.check(not bad_list, 'list forms agree with the scalar codec',
+             'encode_vlqs / decode_vlqs / encode_mappings on every value of '
+             'the scalar table',
+             '%d sequences differ; first: %r is encoded as %r (canonical: '
+             '%r), decoded back as %r' % (
+                 len(bad_list), bad_list[0][0] if bad_list else None,
+                 bad_list[0][1] if bad_list else None,
+                 bad_list[0][2] if bad_list else None,
+                 bad_list[0][3] if bad_list else None),
+             where='vlq.py:encode_vlqs / decode_vlqs / encode_mappings')
     seqs = [(0, 0, 0, 0), (1, -1, 16, -16), (123456, 0, -7, 2 ** 40),
             (), (5,)]
     # decoder state must not leak from one value to the next: all ordered
